@@ -14,7 +14,8 @@ S->I: TLC emits every behaviour up to a length bound (from the empty state and
       behaviour carries, per step, the specified live-instance counts of the four
       resource classes and the specified call result; harness/src/bin/c11.rs
       performs the actions on real roto objects (Runtime::from_lib, FileTree::compile,
-      get_function, clone, call, drop, thread::spawn) and reports the measured
+      get_function, clone, call, into_func, drop, thread::spawn; with and without a
+      context type) and reports the measured
       counters/results; they are compared step by step.
 I->S: seeded random long histories (python does bookkeeping only: which objects
       exist) are executed by the harness; the recorded events (arguments, measured
@@ -24,16 +25,21 @@ I->S: seeded random long histories (python does bookkeeping only: which objects
 import os
 import random
 import time
+from concurrent.futures import ThreadPoolExecutor
 
 import vlib
 from vlib import Evidence, Verdicts, run_tlc, require_tlc_ok
 
 PID = "C11"
-OPNAMES = ["build", "compile", "get", "clone", "call", "drop_handle", "drop_pkg", "drop_rt", "move"]
+OPNAMES = ["build", "compile", "get", "clone", "call", "drop_handle", "drop_pkg", "drop_rt", "move",
+           "into_func", "call_closure", "drop_closure"]
+FLAVOURS = ["noctx", "ctx"]      # runtime without / with a context type (TypedFunc<NoCtx,_> / TypedFunc<Ctx<C>,_>)
 # drop orders / situations that must occur in the generated behaviours (anti-vacuity)
 SCENARIOS = ["pkg_dropped_before_handle", "rt_dropped_before_pkg", "rt_dropped_before_handle",
              "last_clone_on_other_thread", "call_after_pkg_drop", "call_after_rt_drop",
-             "call_after_recompile", "call_after_other_module_released", "last_handle_releases_module"]
+             "call_after_recompile", "call_after_other_module_released", "last_handle_releases_module",
+             "closure_called_as_last_holder", "closure_called_after_pkg_drop", "closure_called_after_rt_drop",
+             "last_closure_releases_module", "closure_dropped_while_others_hold"]
 
 
 # ------------------------------------------------------------------ representation mapping
@@ -51,11 +57,13 @@ def scenarios(ops):
     rt = 0
     mods = {}      # m -> {"g":, "pobj":}
     hnd = {}       # h -> m
+    clo = {}       # c -> m
     released = set()
     out = set()
 
     def holders(m):
-        return (1 if mods[m]["pobj"] else 0) + sum(1 for x in hnd.values() if x == m)
+        return (1 if mods[m]["pobj"] else 0) + sum(1 for x in hnd.values() if x == m) + \
+            sum(1 for x in clo.values() if x == m)
 
     for op in ops:
         o = op["op"]
@@ -82,6 +90,25 @@ def scenarios(ops):
                 if holders(m) == 0:
                     out.add("last_clone_on_other_thread")
                     released.add(m)
+        elif o == "into_func":
+            clo[op["c"]] = hnd.pop(op["h"])
+        elif o == "call_closure":
+            m = clo[op["c"]]
+            if holders(m) == 1:
+                out.add("closure_called_as_last_holder")
+            if not mods[m]["pobj"]:
+                out.add("closure_called_after_pkg_drop")
+            if rt != mods[m]["g"]:
+                out.add("closure_called_after_rt_drop")
+            if any(x != m for x in released):
+                out.add("call_after_other_module_released")
+        elif o == "drop_closure":
+            m = clo.pop(op["c"])
+            if holders(m) == 0:
+                out.add("last_closure_releases_module")
+                released.add(m)
+            else:
+                out.add("closure_dropped_while_others_hold")
         elif o == "drop_handle":
             m = hnd.pop(op["h"])
             if holders(m) == 0:
@@ -97,24 +124,28 @@ def scenarios(ops):
         elif o == "drop_rt":
             if any(v["g"] == rt and v["pobj"] for v in mods.values()):
                 out.add("rt_dropped_before_pkg")
-            if any(mods[m]["g"] == rt for m in hnd.values()):
+            if any(mods[m]["g"] == rt for m in list(hnd.values()) + list(clo.values())):
                 out.add("rt_dropped_before_handle")
             rt = 0
     return out
 
 
 NONTRIVIAL = {"call_after_pkg_drop", "call_after_rt_drop", "last_clone_on_other_thread",
-              "call_after_other_module_released", "last_handle_releases_module"}
+              "call_after_other_module_released", "last_handle_releases_module",
+              "closure_called_as_last_holder", "closure_called_after_pkg_drop", "closure_called_after_rt_drop",
+              "last_closure_releases_module"}
 
 
 # ------------------------------------------------------------------------------ TLC
 
-def mc_cfg(path, spec, n, kind, handles=(1, 2, 3), maxmods=2, maxgens=2, maxcnt=3, emit=True, props=False):
+def mc_cfg(path, spec, n, kind, handles=(1, 2, 3), maxmods=2, maxgens=2, maxcnt=3, emit=True, props=False,
+           closures=(1, 2)):
     with open(path, "w") as f:
         f.write("""SPECIFICATION %s
 CONSTANTS
   Versions = {1, 2}
   Handles = {%s}
+  Closures = {%s}
   MaxMods = %d
   MaxGens = %d
   MaxCnt = %d
@@ -122,7 +153,7 @@ CONSTANTS
   InitKind = "%s"
 %sINVARIANTS Inv%s
 %sCHECK_DEADLOCK FALSE
-""" % (spec, ", ".join(str(h) for h in handles), maxmods, maxgens, maxcnt, n, kind,
+""" % (spec, ", ".join(str(h) for h in handles), ", ".join(str(c) for c in closures), maxmods, maxgens, maxcnt, n, kind,
        "" if emit else "CONSTRAINT CntBound\n", " Emit" if emit else "",
        "PROPERTIES NoResurrection Isolation\n" if props else ""))
 
@@ -131,23 +162,26 @@ def check_design(tier, ev):
     """Exhaustive check of the invariants / action properties on the complete state graph
     within the resource bounds (all histories of any length; closure counter capped)."""
     d = vlib.workdir(PID, "cfg")
-    plans = [((1, 2, 3), 2, 2, 3)] if tier == "quick" else [((1, 2, 3), 2, 2, 4), ((1, 2, 3), 3, 2, 2), ((1, 2), 2, 3, 2)]
+    if tier == "quick":
+        plans = [((1, 2, 3), 2, 2, 2, (1,)), ((1, 2), 2, 2, 2, (1, 2))]
+    else:
+        plans = [((1, 2, 3), 2, 2, 3, (1, 2)), ((1, 2), 3, 2, 2, (1,)), ((1, 2), 2, 3, 2, (1, 2))]
     parts = []
-    for (hs, mm, mg, mc) in plans:
-        cfg = os.path.join(d, "inv_%d_%d_%d.cfg" % (len(hs), mm, mg))
-        mc_cfg(cfg, "MCSpecInv", 0, "empty", hs, mm, mg, mc, emit=False, props=True)
+    for (hs, mm, mg, mc, cs) in plans:
+        cfg = os.path.join(d, "inv_%d_%d_%d_%d.cfg" % (len(hs), len(cs), mm, mg))
+        mc_cfg(cfg, "MCSpecInv", 0, "empty", hs, mm, mg, mc, emit=False, props=True, closures=cs)
         r = run_tlc("MCLifetime", cfg, workers=4, timeout=1500, heap="6g", coverage=False)
         require_tlc_ok(r, "MCLifetime invariants handles=%d mods=%d gens=%d" % (len(hs), mm, mg))
         ev.add_tlc(r)
-        parts.append("complete graph handles=%d packages<=%d runtimes<=%d counter<=%d: %d states, depth %d" %
-                     (len(hs), mm, mg, mc, r.distinct, r.diameter))
+        parts.append("complete graph handles=%d closures=%d packages<=%d runtimes<=%d counter<=%d: %d states, depth %d" %
+                     (len(hs), len(cs), mm, mg, mc, r.distinct, r.diameter))
     return parts
 
 
 def emit_plan(tier):
     if tier == "quick":
-        return [("empty", 6), ("one", 4), ("two", 3), ("reload", 4), ("regen", 4), ("same", 3)], (150, 30)
-    return [("empty", 8), ("one", 5), ("two", 4), ("reload", 5), ("regen", 5), ("same", 4)], (1000, 45)
+        return [("empty", 6), ("one", 4), ("clo", 4), ("two", 3), ("reload", 4), ("regen", 3), ("same", 3)], (100, 30)
+    return [("empty", 8), ("one", 4), ("clo", 5), ("two", 3), ("reload", 4), ("regen", 4), ("same", 3)], (1000, 45)
 
 
 def emitted(tier, ev):
@@ -163,7 +197,7 @@ def emitted(tier, ev):
         yield ("%s:N=%d" % (kind, n), r.replay, True)
     # seeded random walks with larger bounds
     cfg = os.path.join(d, "sim.cfg")
-    mc_cfg(cfg, "MCSpec", depth, "empty", handles=(1, 2, 3, 4), maxmods=6, maxgens=3)
+    mc_cfg(cfg, "MCSpec", depth, "empty", handles=(1, 2, 3, 4), maxmods=6, maxgens=3, closures=(1, 2, 3))
     r = run_tlc("MCLifetime", cfg, workers=1, simulate=num, depth=depth + 1, timeout=1500,
                 tlc_seed=vlib.seed(), coverage=False, heap="6g")
     if r.error or r.invariant_violated:
@@ -181,7 +215,7 @@ def emitted(tier, ev):
 
 # ---------------------------------------------------------------------------- compare
 
-def compare(case, res, verd, origin="replay"):
+def compare(case, res, verd, flavour="noctx"):
     """Compare one executed behaviour with the specification's expectations."""
     ops = case["ops"]
     npre = case.get("npre", 0)
@@ -189,10 +223,10 @@ def compare(case, res, verd, origin="replay"):
     if oc != "returned":
         step = res.get("step", -1)
         opname = ops[step]["op"] if isinstance(step, int) and 0 <= step < len(ops) else "?"
-        verd.report({"kind_of_failure": oc.split(":")[0], "op": opname},
+        verd.report({"flavour": flavour, "kind_of_failure": oc.split(":")[0], "op": opname},
                     "history did not run to completion (%s) at step %s op=%s: %s; history: %s" %
                     (oc, step, opname, {k: v for k, v in res.items() if k != "i"}, [strip(o) for o in ops]),
-                    {"case": case, "result": res})
+                    {"case": case, "flavour": flavour, "result": res})
         return False
     r = res["r"]
     base = r["base"]
@@ -203,32 +237,32 @@ def compare(case, res, verd, origin="replay"):
         if "res" in op:
             d = decode(got["res"])
             if d != op["res"]:
-                verd.report({"kind_of_failure": "wrong-result", "op": op["op"]},
+                verd.report({"flavour": flavour, "kind_of_failure": "wrong-result", "op": op["op"]},
                             "step %d %s: spec says main() returns <<k, rc, n>> = %s, implementation returned %r = %s; history: %s" %
                             (k, strip(op), op["res"], got["res"], d, [strip(o) for o in ops[:k + 1]]),
-                            {"case": case, "step": k, "got": got})
+                            {"case": case, "flavour": flavour, "step": k, "got": got})
                 return False
         elif got["res"] is not None:
-            verd.report({"kind_of_failure": "wrong-result", "op": op["op"]},
-                        "step %d %s returned a value: %r" % (k, strip(op), got["res"]), {"case": case, "step": k, "got": got})
+            verd.report({"flavour": flavour, "kind_of_failure": "wrong-result", "op": op["op"]},
+                        "step %d %s returned a value: %r" % (k, strip(op), got["res"]), {"case": case, "flavour": flavour, "step": k, "got": got})
             return False
         if live != op["live"]:
-            verd.report({"kind_of_failure": "live-count", "op": op["op"],
+            verd.report({"flavour": flavour, "kind_of_failure": "live-count", "op": op["op"],
                          "direction": "early-release" if any(a < b for a, b in zip(live, op["live"])) else "late-release"},
                         "step %d %s: spec says live instances [script consts v1, v2, registered const, closure capture] = %s, "
                         "measured %s; history: %s" % (k, strip(op), op["live"], live, [strip(o) for o in ops[:k + 1]]),
-                        {"case": case, "step": k, "got": got})
+                        {"case": case, "flavour": flavour, "step": k, "got": got})
             return False
     if r.get("corrupt", 0) != 0:
-        verd.report({"kind_of_failure": "use-after-release", "op": "any"},
+        verd.report({"flavour": flavour, "kind_of_failure": "use-after-release", "op": "any"},
                     "a tracked value was used or dropped after its release (%d times); history: %s" %
-                    (r["corrupt"], [strip(o) for o in ops]), {"case": case, "result": r})
+                    (r["corrupt"], [strip(o) for o in ops]), {"case": case, "flavour": flavour, "result": r})
         return False
     if r["end_live"] != base:
         # FreedIffUnheld with every holder set empty: nothing may remain
-        verd.report({"kind_of_failure": "live-count", "op": "end", "direction": "late-release"},
+        verd.report({"flavour": flavour, "kind_of_failure": "live-count", "op": "end", "direction": "late-release"},
                     "after dropping every handle, package and the runtime %s instances remain (before the history: %s); history: %s" %
-                    (r["end_live"], base, [strip(o) for o in ops]), {"case": case, "result": r})
+                    (r["end_live"], base, [strip(o) for o in ops]), {"case": case, "flavour": flavour, "result": r})
         return False
     return True
 
@@ -243,12 +277,13 @@ def to_harness(case):
 
 # ------------------------------------------------------------------------------ I->S
 
-def random_history(rng, nops, nslots=6):
+def random_history(rng, nops, nslots=6, ncslots=4):
     """Seeded random history; bookkeeping only (which objects exist), no expectations."""
     rt = 0
     ngen = 0
     mods = {}   # m -> pobj alive
     hnd = {}    # slot -> m
+    clo = {}    # closure slot -> m
     ops = []
     calls = 0
     for _ in range(nops):
@@ -273,6 +308,12 @@ def random_history(rng, nops, nslots=6):
             cand.append(("drop_handle", 2))
             if free:
                 cand.append(("clone", 2))
+            if len(clo) < ncslots:
+                cand.append(("into_func", 1.5))
+        if clo:
+            if calls < 9000:
+                cand.append(("call_closure", 3))
+            cand.append(("drop_closure", 1))
         if not cand:
             break
         o = rng.choices([c[0] for c in cand], [c[1] for c in cand])[0]
@@ -313,8 +354,21 @@ def random_history(rng, nops, nslots=6):
             h = rng.choice(sorted(hnd))
             del hnd[h]
             ops.append({"op": "drop_handle", "h": h})
+        elif o == "into_func":
+            h = rng.choice(sorted(hnd))
+            c = rng.choice([x for x in range(1, ncslots + 1) if x not in clo])
+            clo[c] = hnd.pop(h)
+            ops.append({"op": "into_func", "h": h, "c": c})
+        elif o == "call_closure":
+            calls += 1
+            ops.append({"op": "call_closure", "c": rng.choice(sorted(clo))})
+        elif o == "drop_closure":
+            c = rng.choice(sorted(clo))
+            del clo[c]
+            ops.append({"op": "drop_closure", "c": c})
     # explicit clean-up in a random order, so that the trace ends with everything released
     rest = [{"op": "drop_handle", "h": h} for h in sorted(hnd)] + \
+           [{"op": "drop_closure", "c": c} for c in sorted(clo)] + \
            [{"op": "drop_pkg", "m": m} for m, p in sorted(mods.items()) if p] + \
            ([{"op": "drop_rt"}] if rt else [])
     rng.shuffle(rest)
@@ -330,18 +384,21 @@ def impl_to_spec(tier, ev, verd, scen_count):
     nruns, nops = (8, 300) if tier == "quick" else (32, 1000)
     d = vlib.workdir(PID, "trace")
     cases = [{"ops": random_history(rng, nops)} for _ in range(nruns)]
-    results = vlib.run_batch("c11", cases, nproc=min(8, nruns), pid=PID, tag="rec", stall=60)
+    half = nruns // 2
+    fl = ["noctx"] * half + ["ctx"] * (nruns - half)
+    results = vlib.run_batch("c11", cases[:half], extra=["noctx"], nproc=min(4, half), pid=PID, tag="rec_noctx", stall=60) + \
+        vlib.run_batch("c11", cases[half:], extra=["ctx"], nproc=min(4, nruns - half), pid=PID, tag="rec_ctx", stall=60)
     events = []
     good = 0
-    for case, res in zip(cases, results):
+    for case, res, flavour in zip(cases, results, fl):
         if vlib.outcome_of(res) != "returned":
-            compare(case, res, verd, "record")
+            compare(case, res, verd, flavour)
             continue
         r = res["r"]
         if r.get("corrupt", 0) != 0:
-            verd.report({"kind_of_failure": "use-after-release", "op": "any"},
+            verd.report({"flavour": flavour, "kind_of_failure": "use-after-release", "op": "any"},
                         "a tracked value was used or dropped after its release (%d times) in a recorded history" % r["corrupt"],
-                        {"case": case, "result": r})
+                        {"case": case, "flavour": flavour, "result": r})
             continue
         events.append({"op": "reset"})
         for op, got in zip(case["ops"], r["steps"]):
@@ -381,19 +438,32 @@ def run(tier):
     vlib.build_harness(["c11"])
     ev.rule = ("cases = behaviours of Lifetime emitted by TLC (every behaviour up to the length bound from the empty "
                "state and after 5 fixed prefixes, plus seeded simulation walks with larger bounds), each executed on "
-               "real roto objects; distinct = distinct action sequences; non-trivial = the history calls a handle after "
-               "its package object or runtime was dropped or after another module was released, or releases a module "
-               "through its last handle (on this or another thread)")
+               "real roto objects (runtime without context type: all; with context type: all that use into_func and every "
+               "fourth other); distinct = distinct (flavour, action sequence); non-trivial = the history calls a handle or "
+               "an into_func closure after its package object or runtime was dropped or after another module was released, "
+               "or releases a module through its last handle / closure (on this or another thread)")
     parts = check_design(tier, ev)
     vlib.log("C11 design invariants checked, t=%.1fs" % (time.time() - ev.t0))
     opcount = {}
     scen_count = {}
     aborted = False
     for label, cases, exhaustive in emitted(tier, ev):
-        results = vlib.run_batch("c11", [to_harness(c) for c in cases], nproc=8, pid=PID,
-                                 tag="emit_" + label.split(":")[0], stall=60)
+        tagp = "emit_" + label.split(":")[0]
+        # the flavour with a context type: every behaviour that makes a closure with into_func, and
+        # every fourth of the others
+        cx = [c for c in cases if int(vlib.shash([strip(o) for o in c["ops"]]), 16) % 4 == 0 or
+              any(o["op"] == "into_func" for o in c["ops"])]
+        with ThreadPoolExecutor(max_workers=2) as ex:
+            f1 = ex.submit(vlib.run_batch, "c11", [to_harness(c) for c in cases], ["noctx"], 7, 60, PID, tagp)
+            f2 = ex.submit(vlib.run_batch, "c11", [to_harness(c) for c in cx], ["ctx"], 5, 60, PID, tagp + "_ctx")
+            results, results_cx = f1.result(), f2.result()
+        for c, res in zip(cx, results_cx):
+            compare(c, res, verd, "ctx")
+            ev.case({"flavour": "ctx", "ops": [strip(o) for o in c["ops"]]}, bool(scenarios(c["ops"]) & NONTRIVIAL),
+                    key=vlib.shash(["ctx", [strip(o) for o in c["ops"]]]))
+            ev.traces += 1
         for c, res in zip(cases, results):
-            compare(c, res, verd)
+            compare(c, res, verd, "noctx")
             sc = scenarios(c["ops"])
             for s in sc:
                 scen_count[s] = scen_count.get(s, 0) + 1
@@ -402,8 +472,10 @@ def run(tier):
             ev.case({"ops": [strip(o) for o in c["ops"]]}, bool(sc & NONTRIVIAL), key=vlib.shash([strip(o) for o in c["ops"]]))
             ev.traces += 1
         parts.append("%s: %d behaviours%s" % (label, len(cases), " (all)" if exhaustive else " (seeded walks)"))
-        vlib.log("C11 %s: %d behaviours replayed, t=%.1fs" % (label, len(cases), time.time() - ev.t0))
-        del results, cases
+        vlib.log("C11 %s: %d behaviours replayed (+%d with a context type), t=%.1fs" %
+                 (label, len(cases), len(cx), time.time() - ev.t0))
+        parts[-1] += ", %d of them also with a context type" % len(cx)
+        del results, cases, results_cx, cx
         if len(verd.violations) > 200:
             # plenty of replay files already; the remaining behaviours would only add more of the same
             vlib.log("C11: more than 200 violating histories, not replaying the remaining behaviours")
@@ -432,6 +504,7 @@ def run(tier):
         "exhaustive up to the stated history length with <= 2 versions, <= 2 packages, <= 3 handles, <= 2 runtimes; "
         "longer histories and larger bounds by seeded walks",
         "version 2 does not call the closure, so a version-2 package does not keep the closure capture alive",
+        "the closure returned by TypedFunc::into_func is a holder of its own (it owns the handle it was made from)",
     ]
     rc = verd.finish()
     ev.write(len(verd.violations))
@@ -444,8 +517,9 @@ def replay(path):
     vlib.build_harness(["c11"])
     verd = Verdicts(PID)
     if "case" in obj:
-        res = vlib.run_batch("c11", [to_harness(obj["case"])], nproc=1, pid=PID, tag="replay")
-        if compare(obj["case"], res[0], verd):
+        fl = obj.get("flavour", "noctx")
+        res = vlib.run_batch("c11", [to_harness(obj["case"])], extra=[fl], nproc=1, pid=PID, tag="replay")
+        if compare(obj["case"], res[0], verd, fl):
             print("replay: the history now conforms to the specification")
     elif "trace" in obj:
         r = vlib.validate_trace("TraceLifetime", "TraceLifetime.cfg", obj["trace"])
